@@ -12,7 +12,39 @@ import concurrent.futures, os, re, shutil, subprocess, sys, tempfile, time
 HERE = os.path.dirname(os.path.abspath(__file__))
 VERIF = os.path.dirname(HERE)
 sys.path.insert(0, HERE)
-from mutants import MUTANTS
+from mutants import MUTANTS, NEUTRAL
+
+
+def run_neutral(m, tier):
+    """a behaviour-preserving change: every check must exit 0"""
+    nid, name, edits = m
+    t0 = time.time()
+    d = tempfile.mkdtemp(prefix="pckb-neu-")
+    try:
+        subprocess.check_call(["rsync", "-a", "--exclude", "target", "--exclude", ".git", "/repo/", d + "/"])
+        for f, old, new in edits:
+            p = os.path.join(d, f)
+            s = open(p, encoding="utf-8").read()
+            if s.count(old) < 1:
+                return (nid, name, "STALE", "edit does not apply: %r not found in %s" % (old[:50], f), time.time() - t0, "")
+            open(p, "w", encoding="utf-8").write(s.replace(old, new, 1))
+        env = dict(os.environ, CARGO_NET_OFFLINE="true", CARGO_TARGET_DIR=os.path.join(d, ".t-target"))
+        t = subprocess.run(["cargo", "test", "--offline"], cwd=d, env=env, stdout=subprocess.PIPE, stderr=subprocess.STDOUT, text=True)
+        mm = re.search(r"test result: (\w+)\. (\d+) passed; (\d+) failed", t.stdout)
+        if t.returncode != 0 or not mm or mm.group(1) != "ok" or int(mm.group(2)) != 32:
+            return (nid, name, "INVALID", " | ".join(t.stdout.strip().splitlines()[-6:])[:300], time.time() - t0, "")
+        env2 = dict(os.environ, VERIF_REPO=d, CARGO_NET_OFFLINE="true")
+        env2.pop("CARGO_TARGET_DIR", None)
+        alarms = []
+        for i in range(1, 21):
+            pr = "C%02d" % i
+            c = subprocess.run([os.path.join(VERIF, "check"), pr, "--tier", tier], cwd=VERIF, env=env2, stdout=subprocess.PIPE, stderr=subprocess.STDOUT, text=True)
+            if c.returncode != 0:
+                lines = [l.strip() for l in c.stdout.splitlines() if l.startswith("  ") or l.startswith("INCONCLUSIVE")]
+                alarms.append("%s(rc%d): %s" % (pr, c.returncode, (lines[0] if lines else c.stdout.strip().splitlines()[-1] if c.stdout.strip() else "")[:200]))
+        return (nid, name, "SILENT" if not alarms else "ALARM", " || ".join(alarms), time.time() - t0, "")
+    finally:
+        shutil.rmtree(d, ignore_errors=True)
 
 
 def run_one(m, tier, all_props):
@@ -66,6 +98,22 @@ def main():
     j = int(args[args.index("-j") + 1]) if "-j" in args else 6
     tier = args[args.index("--tier") + 1] if "--tier" in args else "quick"
     all_props = "--all-props" in args
+    if "--neutral" in args:
+        todo = [m for m in NEUTRAL if k in m[0] + ":" + m[1]]
+        print("running %d neutral changes (all 20 quick checks each), %d at a time" % (len(todo), j), flush=True)
+        res = []
+        with concurrent.futures.ThreadPoolExecutor(max_workers=j) as ex:
+            for r in ex.map(lambda m: run_neutral(m, tier), todo):
+                print("%-4s %-40s %-8s %5.0fs  %s" % (r[0], r[1], r[2], r[4], r[3][:400]), flush=True)
+                res.append(r)
+        silent = sum(1 for r in res if r[2] == "SILENT")
+        print("silent on %d / %d neutral changes" % (silent, len(res)))
+        if not k:
+            with open(os.path.join(HERE, "RESULTS_NEUTRAL.md"), "w") as f:
+                f.write("# Neutral (behaviour-preserving) changes: every quick check must stay silent\n\nsilent on %d of %d\n\n| id | change | verdict | alarms |\n|---|---|---|---|\n" % (silent, len(res)))
+                for r in res:
+                    f.write("| %s | %s | %s | %s |\n" % (r[0], r[1], r[2], r[3].replace("|", "\\|")))
+        sys.exit(0 if silent == len(res) else 1)
     todo = [m for m in MUTANTS if k in m[0] + ":" + m[1]]
     print("running %d mutants, %d at a time" % (len(todo), j), flush=True)
     res = []
